@@ -1,8 +1,41 @@
 (* C06 -- Gradient accumulation and isolation protocol of backward().
-   Nothing but statements closed by `exact <lemma>` and Print Assumptions. *)
-From Coq Require Import List NArith Bool Arith.
-From PV Require Import Graph.OpFamily Graph.Tape Graph.Lazy Graph.Backward Graph.BackwardProofs.
+   Nothing but statements closed by `exact <lemma>` and Print Assumptions.
+   The per-operator backward is ABSTRACT (any function f_bw returning the increments it adds to
+   the argument gradients), so these theorems are about the PROTOCOL of Graph::backward and
+   BACKWARD(Parameter), not about arithmetic.  gok / winv = invariant of reachable graphs /
+   worlds (Properties_C05.C05_reachable_invariant). *)
+From Coq Require Import List NArith ZArith Bool Arith.
+From PV Require Import Graph.OpFamily Graph.Tape Graph.Lazy Graph.Backward Graph.TapeLemmas
+  Graph.LazyProofs Graph.BackwardProofs Graph.HistoryProofs Graph.FrameProofs Graph.MoreProofs
+  Graph.Theorems Graph.Example.
 Import ListNotations.
+
+(* backward() only ever ADDS to parameter gradients: there is a list of contributions cs
+   (parameter, tensor), independent of the prior gradients, such that for EVERY prior gradient
+   function g0 the call yields the same graph, the same parameter values and streams, and
+   gradient(p) = (...((g0 p + c1) + c2)...) over p's contributions in call order. *)
+Theorem C06_backward_only_adds {Op Sh V} (F : OpFamily Op Sh V) (VO : ValOps Sh V)
+  (g : @gstate Op Sh V) e n g' e' : backward F VO g e n = Some (g', e') ->
+  exists cs, forall g0, exists e0',
+    backward F VO g (with_pgrad e g0) n = Some (g', e0') /\
+    e_pval e0' = e_pval e' /\ e_pos e0' = e_pos e' /\
+    forall p, e_pgrad e0' p = fold_left (vadd VO) (cs_for p cs) (g0 p).
+Proof. exact (T_backward_only_adds F VO g e n g' e'). Qed.
+Print Assumptions C06_backward_only_adds.
+
+(* k calls add k times: after one completed backward(n) the graph is a fixed point of
+   backward(n); every further call - whatever the gradients are by then, same parameter
+   values - leaves the operator list and the forward log unchanged, consumes no random
+   numbers and adds exactly the same contributions cs again. *)
+Theorem C06_k_calls_add_k_times {Op Sh V} (F : OpFamily Op Sh V) (VO : ValOps Sh V) (HF : FamOK F)
+  (g : @gstate Op Sh V) e n g' e' : gok F g -> backward F VO g e n = Some (g', e') ->
+  exists cs, (forall p, e_pgrad e' p = fold_left (vadd VO) (cs_for p cs) (e_pgrad e p)) /\
+    forall e2, e_pval e2 = e_pval e -> exists g2 e2',
+      backward F VO g' e2 n = Some (g2, e2') /\ g_ops g2 = g_ops g' /\ g_log g2 = g_log g' /\
+      e_pval e2' = e_pval e2 /\ e_pos e2' = e_pos e2 /\
+      forall p, e_pgrad e2' p = fold_left (vadd VO) (cs_for p cs) (e_pgrad e2 p).
+Proof. exact (T_backward_again F VO HF g e n g' e'). Qed.
+Print Assumptions C06_k_calls_add_k_times.
 
 (* reset_gradient()/reset_gradients(): every reset parameter's gradient is exactly zeros of
    its shape; values, streams and all other gradients are untouched. *)
@@ -13,3 +46,99 @@ Theorem C06_reset_returns_zero {Sh V} (VO : ValOps Sh V) (e : @env V) ps p sh :
   forall q, lookup q ps = None -> e_pgrad (reset_gradients VO e ps) q = e_pgrad e q.
 Proof. exact (reset_zero VO e ps p sh). Qed.
 Print Assumptions C06_reset_returns_zero.
+
+(* Isolation: every operator whose backward is called is an ancestor of the target, and a
+   parameter none of whose operators is an ancestor of the target keeps its gradient - the
+   SAME term, hence bit for bit. *)
+Theorem C06_non_ancestor_untouched {Op Sh V} (F : OpFamily Op Sh V) (VO : ValOps Sh V) (HF : FamOK F)
+  (g : @gstate Op Sh V) e n g' e' : ginv F (g_ops g) -> gclean (g_ops g) ->
+  backward F VO g e n = Some (g', e') ->
+  (forall j, In j (g_blog g') -> In j (g_blog g) \/ anc (g_ops g) j (fst n)) /\
+  (forall p, (forall j, anc (g_ops g) j (fst n) -> inner_of F (g_ops g) j <> Some p) -> e_pgrad e' p = e_pgrad e p).
+Proof. exact (T_non_ancestor_untouched F VO HF g e n g' e'). Qed.
+Print Assumptions C06_non_ancestor_untouched.
+
+(* Blocked paths: a parameter none of whose operators is reached from the target by a
+   gradient-carrying path (every path crosses a BACKWARD_NOP operator: stop_gradient,
+   constant, input, random) receives nothing but `+= zeros(shape)`, once per visit of one of
+   its operators.  (ZeroOK: zeros+zeros = zeros; a backward fed with zeros adds zeros.) *)
+Theorem C06_blocked_gets_only_zero {Op Sh V} (F : OpFamily Op Sh V) (VO : ValOps Sh V) (HF : FamOK F) :
+  ZeroOK F VO -> forall (g : @gstate Op Sh V) e n g' e',
+  ginv F (g_ops g) -> gclean (g_ops g) -> shape_ok F (g_ops g) -> backward F VO g e n = Some (g', e') ->
+  forall p, (forall j, glive F (g_ops g) (fst n) j -> inner_of F (g_ops g) j <> Some p) ->
+    exists zs, e_pgrad e' p = fold_left (vadd VO) zs (e_pgrad e p) /\ Forall (zero_of F VO (g_ops g) p) zs.
+Proof. exact (T_blocked_gets_only_zero F VO HF). Qed.
+Print Assumptions C06_blocked_gets_only_zero.
+
+(* Over exact arithmetic (x + 0 = x) this is the identity.  In float32 x + 0 = x holds
+   bitwise for every x except -0.0f (-0.0f + 0.0f = +0.0f): known finding D12, re-confirmed on
+   the real code by every run of the check. *)
+Theorem C06_blocked_identity_exact {Op Sh V} (F : OpFamily Op Sh V) (VO : ValOps Sh V) (HF : FamOK F) :
+  ZeroOK F VO -> (forall x sh, vadd VO x (vzeros VO sh) = x) ->
+  forall (g : @gstate Op Sh V) e n g' e',
+  ginv F (g_ops g) -> gclean (g_ops g) -> shape_ok F (g_ops g) -> backward F VO g e n = Some (g', e') ->
+  forall p, (forall j, glive F (g_ops g) (fst n) j -> inner_of F (g_ops g) j <> Some p) -> e_pgrad e' p = e_pgrad e p.
+Proof. exact (T_blocked_identity_exact F VO HF). Qed.
+Print Assumptions C06_blocked_identity_exact.
+
+(* backward() changes no parameter value and no node value (values only appear, by the
+   implied forward; gext = every value slot that was Some v still is, log only extended), and
+   leaves a graph that again satisfies the invariant - in particular (no_leak_between_passes)
+   every node gradient is None again (gok includes gclean). *)
+Theorem C06_backward_preserves_values_no_leak {Op Sh V} (F : OpFamily Op Sh V) (VO : ValOps Sh V) (HF : FamOK F)
+  (g : @gstate Op Sh V) e n g' e' : gok F g -> backward F VO g e n = Some (g', e') ->
+  gok F g' /\ gext g g' /\ e_pval e' = e_pval e.
+Proof. exact (T_backward_preserves_values F VO HF g e n g' e'). Qed.
+Print Assumptions C06_backward_preserves_values_no_leak.
+
+(* Nodes created after the target do not influence the result: the same call on the graph
+   extended by ANY operators x appended later gives the same result with x untouched. *)
+Theorem C06_later_nodes_irrelevant {Op Sh V} (F : OpFamily Op Sh V) (VO : ValOps Sh V)
+  (g : @gstate Op Sh V) e n g' e' x : backward F VO g e n = Some (g', e') ->
+  backward F VO (gapp g x) e n = Some (gapp g' x, e').
+Proof. exact (T_later_nodes_irrelevant F VO g e n g' e' x). Qed.
+Print Assumptions C06_later_nodes_irrelevant.
+
+(* Several graphs / several backward calls sharing parameters compose: for every history of
+   new-graph / add / forward / backward / direct-draw commands there is ONE contribution list,
+   independent of the prior gradients g0, such that the final gradient of p is g0 p += its
+   contributions in call order, while graphs, parameter values and streams do not depend on
+   g0 at all (wsim). *)
+Theorem C06_backward_history {Op Sh V} (F : OpFamily Op Sh V) (VO : ValOps Sh V) cs :
+  Forall (fun c : @cmd Op Sh V => grad_free c = true) cs -> forall w : @world Op Sh V,
+  exists contribs, forall w2 acc g0, wsim VO w w2 acc g0 ->
+    wsim VO (run_all F VO w cs) (run_all F VO w2 cs) (acc ++ contribs) g0.
+Proof. exact (T_backward_history F VO cs). Qed.
+Print Assumptions C06_backward_history.
+
+(* non-vacuity on the example family: after building the graph of Graph/Example.v (p0 * r +
+   stop_gradient(p1), r random) the state satisfies every hypothesis; backward(node 5) adds
+   the mask r = (0,1) to the gradient (10,20) of p0, leaves p1 (blocked, gradient (30,40))
+   with its gradient, calls backward of operators 5,4,3,2,1,0 only, and p1 is not reached by a
+   gradient-carrying path. *)
+Example C06_nonvacuous :
+  FamOK EF /\ ZeroOK EF EV /\
+  let w := run_all EF EV ex_w0 (firstn 9 ex_cmds) in
+  exists g, nth_error (w_graphs w) 0 = Some g /\ gok EF g /\ shape_ok EF (g_ops g) /\
+    exists g' e', backward EF EV g (w_env w) (5, 0) = Some (g', e') /\
+      e_pgrad e' 0 = [10; 21]%Z /\ e_pgrad e' 1 = [30; 40]%Z /\ g_blog g' = [5; 4; 3; 2; 1; 0] /\
+      (forall j, glive EF (g_ops g) 5 j -> inner_of EF (g_ops g) j <> Some 1).
+Proof.
+  assert (H : FamOK EF) by (split; [exact EF_fw_len|split; [exact EF_sh_len|exact EF_inner_argn]]).
+  split; [exact H|]. split; [split; [exact EV_zz|exact EF_bwz]|].
+  destruct (T_reachable_invariant EF EV H ex_env (firstn 9 ex_cmds)) as (Hw & Hs).
+  cbv zeta. change {| w_graphs := []; w_env := ex_env |} with ex_w0 in *.
+  remember (run_all EF EV ex_w0 (firstn 9 ex_cmds)) as w eqn:Ew.
+  assert (Hg : exists g, nth_error (w_graphs w) 0 = Some g) by (rewrite Ew; vm_compute; eexists; reflexivity).
+  destruct Hg as (g & Eg). exists g. split; [exact Eg|].
+  unfold winv, wshape in *. rewrite Forall_forall in Hw, Hs.
+  split; [apply Hw; eapply nth_error_In; eauto|]. split; [apply Hs; eapply nth_error_In; eauto|].
+  assert (Eg' : Some g = nth_error (w_graphs (run_all EF EV ex_w0 (firstn 9 ex_cmds))) 0) by (rewrite <- Ew; auto).
+  vm_compute in Eg'. injection Eg' as ->. rewrite Ew. vm_compute.
+  eexists _, _. split; [reflexivity|]. split; [reflexivity|]. split; [reflexivity|]. split; [reflexivity|].
+  intros j Hl. assert (Hj : j = 5 \/ j = 3 \/ j = 4 \/ j = 0 \/ j = 2).
+  { clear - Hl. induction Hl as [|k oi a Hk IH E Hn Ha]; [auto|].
+    destruct IH as [->|[->|[->|[->| ->]]]]; simpl in E; injection E as <-; simpl in Hn; try discriminate;
+      simpl in Ha; intuition (subst; simpl; auto). }
+  destruct Hj as [->|[->|[->|[->| ->]]]]; discriminate.
+Qed.
